@@ -4,6 +4,7 @@ import (
 	"bytes"
 	"encoding/base64"
 	"fmt"
+	"github.com/multiformats/go-multiaddr"
 	"io"
 	"net/http"
 	"strings"
@@ -35,6 +36,7 @@ type adminEndpoint struct {
 	alter    func([]byte) []byte
 	swap     bool // deliver the body to the other endpoint's reader
 	lastBody []byte
+	hits     int
 	accepted bool
 	ingest   *model.IngestRequest
 	reg      *peer.PeerRecord
@@ -43,6 +45,7 @@ type adminEndpoint struct {
 
 func (a *adminEndpoint) ServeHTTP(w http.ResponseWriter, req *http.Request) {
 	body, _ := io.ReadAll(req.Body)
+	a.hits++
 	a.lastBody = append([]byte(nil), body...)
 	if a.alter != nil {
 		body = a.alter(append([]byte(nil), body...))
@@ -242,7 +245,46 @@ func runC18(r *simkit.Run, c Cfg) {
 	}
 	exchange := func(t *simkit.Task, q c18Req, alter func([]byte) []byte, swap bool, desc string) {
 		ep.alter, ep.swap = alter, swap
+		hits := ep.hits
 		err := q.send(cl)
+		if q.named != q.signer {
+			// The library's constructor was asked to build a request that
+			// names one provider and is signed with another identity's key.
+			// It refuses, or what it builds is accepted (the clause about the
+			// constructors has no exception) - which the reader's clause
+			// forbids; so it refuses.
+			if ep.hits != hits {
+				r.Violate("c18.rejected", "the library's constructor built, without error, a %s request naming %s with the %s key of %s: a request no reader may accept", kindName(q.ingest), q.named.Name, q.signer.Priv.Type(), q.signer.Name)
+			} else if err == nil {
+				r.Violate("c18.client", "nothing was sent but the client returned no error")
+			} else {
+				r.Probe("constructor-refused-foreign-provider")
+			}
+			// the forged request itself, sealed by the attacker's own means
+			var rec record.Record
+			path := "/ingest/content"
+			if q.ingest {
+				rec = &model.IngestRequest{Multihash: q.mh, ProviderID: q.named.ID, ContextID: q.ctxID, Metadata: q.metadata, Addrs: q.addrs, Seq: peer.TimestampSeq()}
+			} else {
+				pr := peer.NewPeerRecord()
+				pr.PeerID = q.named.ID
+				for _, a := range q.addrs {
+					pr.Addrs = append(pr.Addrs, must(multiaddr.NewMultiaddr(a)))
+				}
+				rec = pr
+				path = "/register"
+			}
+			data := must(must(record.Seal(rec, q.signer.Priv)).Marshal())
+			resp, perr := http.Post("http://indexer.example.org:3001"+path, "application/json", bytes.NewReader(data))
+			err = perr
+			if perr == nil {
+				io.Copy(io.Discard, resp.Body)
+				resp.Body.Close()
+				if resp.StatusCode >= 400 {
+					err = fmt.Errorf("status %d", resp.StatusCode)
+				}
+			}
+		}
 		altered := alter != nil && !bytes.Equal(alter(append([]byte(nil), ep.lastBody...)), ep.lastBody)
 		c18Check(r, ep, q, err, altered, swap, desc)
 	}
